@@ -45,6 +45,10 @@ public:
 
     QXmppE2eeExtension *encryptionExtension;
 
+    /// Bare JID the application configured for the last connection attempt
+    /// (the address the server binds may differ from it)
+    QString configuredJidBare;
+
     // reconnection
     bool receivedConflict;
     int reconnectionTries;
